@@ -299,7 +299,24 @@ def check_rem_extent(P, ctx):
         detail = ['dst = %s' % ir.fmt(dst), 'src - dst = %r' % gap, 'length moved  = %r' % pl, 'tail incl. NUL = %r' % tail]
     ctx.check(ok, rule, fn['name'], site(fn), 'rem deletes the first occurrence by moving exactly the rest of the string '
               '(strlen(occurrence) - strlen(operand) + 1 bytes) over it', detail)
-    ctx.floor(rule, 1)
+    # ... and deletes nothing else: every change of the buffer in rem happens at the place the search for the *first* occurrence
+    # returned (a shortcut that cuts the string somewhere else — at the end, say — removes a later occurrence)
+    NW = util.Norm(P, fn)
+    bad = None
+    searches = [n for n in g.live() if n['expr'] is not None and any(ir.callee_name(c) in SEARCH for c in ir.calls(n['expr']))]
+    for (wn, what) in buffer_writes(P, fn, 'val', NW) + [(n, 'memmove') for (n, c) in mm]:
+        if not searches or not g.must_pass(wn['id'], [x['id'] for x in searches]):
+            bad = bad or '%s at %s is reachable without the search for the first occurrence' % (what, g.describe(wn))
+    for n in g.live():
+        if n['expr'] is None:
+            continue
+        for ev in util.expr_events(n['expr'], n):
+            if ev['t'] == 'write':
+                t = ir.top_nocast(N.canon(ev['lhs']))
+                if (t[0] == 'idx' or (t[0] == 'un' and t[1] == '*')) and not (searches and g.must_pass(n['id'], [x['id'] for x in searches])):
+                    bad = bad or 'store `%s` at %s is reachable without the search for the first occurrence' % (ir.fmt(t)[:40], g.describe(n))
+    ctx.check(bad is None, rule, fn['name'] + ':only-at-first-occurrence', site(fn), 'rem changes the buffer only where the search for the first occurrence pointed', [bad] if bad else None)
+    ctx.floor(rule, 2)
 
 
 def check_delegation(P, ctx):
@@ -342,8 +359,9 @@ def check_delegation(P, ctx):
 
 
 def run(ctx, load):
+    Pp = load(['src/Show.c', 'src/String.c', 'src/File.c', 'src/Num.c', 'src/Exception.c'], 'default')
     P = load(UNITS, 'default')
-    ctx.stats['units'] = set(UNITS)
+    ctx.stats['units'] = set(UNITS) | {'src/Show.c'}
     ctx.stats['configs'] = ['default']
     n = check_heap_only(P, ctx, 'src/String.c', 'val', 'C16.heap-only', 'String')
     ctx.stats['call_sites'] += n
@@ -354,6 +372,17 @@ def run(ctx, load):
     check_search(P, ctx)
     check_rem_extent(P, ctx)
     check_delegation(P, ctx)
+    # formatted writes reach a String through print_to_with: each piece goes to the sink and the position advances by what the
+    # sink reports (shared with C14) — a position that runs ahead leaves the terminator of an earlier piece inside the text
+    from .rules_c14 import check_print
+    before = len(ctx.obs)
+    check_print(Pp, ctx)
+    for o in ctx.obs[before:]:
+        o['rule'] = 'C16.formatted-write-' + o['rule'].split('.', 1)[1]
+    for k in list(ctx.floors):
+        if k[0].startswith('C14.'):
+            ctx.floors.pop(k)
+    ctx.floor('C16.formatted-write-specifier-table', 8)
 
 
 EXPLANATION = (
